@@ -243,6 +243,7 @@ def cfg_facts(f):
         hdrs = 0
         for hd in loops:
             hdrs |= 1 << hd
+        merges = {}     # merge block the detector will use -> branches using it
         for u in range(n):
             if len(sc[u]) != 2:
                 continue
@@ -282,6 +283,15 @@ def cfg_facts(f):
                     sets.append(seen_r)
                 if sets[0] & sets[1] & hdrs:
                     facts["unmerged_branch_before_loop"] = True
+                if proper:
+                    merges.setdefault(ip, []).append((u, sets[0] | sets[1]))
+        # two nested branches with the same merge block (short-circuit && and ||): the inner one
+        # generates the merge block and what follows as its own follow-up, the outer one again
+        for ip, users in merges.items():
+            if len(users) > 1 and ((reach[ip] | 1 << ip) & hdrs):
+                for u, inside in users:
+                    if any(w != u and inside >> w & 1 for w, _ in users):
+                        facts["unmerged_branch_before_loop"] = True
     return facts
 
 
